@@ -118,3 +118,121 @@ func CalleeObj(info *types.Info, call *ast.CallExpr) *types.Func {
 	}
 	return nil
 }
+
+// SwitchInfo describes one switch / type-switch statement.
+type SwitchInfo struct {
+	Node       ast.Stmt
+	Tag        ast.Expr // nil for `switch {` and type switches
+	IsType     bool
+	Clauses    []*ast.CaseClause
+	Labels     [][]string // per clause, labels (nil slice = default)
+	HasDefault bool
+	Pos        token.Pos
+}
+
+// SwitchesIn lists the switch statements of a function body (outermost first, source order).
+func SwitchesIn(pk *packages.Package, body ast.Node) []*SwitchInfo {
+	var out []*SwitchInfo
+	ast.Inspect(body, func(n ast.Node) bool {
+		switch s := n.(type) {
+		case *ast.SwitchStmt:
+			si := &SwitchInfo{Node: s, Tag: s.Tag, Pos: s.Pos()}
+			fillClauses(pk, si, s.Body)
+			out = append(out, si)
+		case *ast.TypeSwitchStmt:
+			si := &SwitchInfo{Node: s, IsType: true, Pos: s.Pos()}
+			fillClauses(pk, si, s.Body)
+			out = append(out, si)
+		}
+		return true
+	})
+	return out
+}
+
+func fillClauses(pk *packages.Package, si *SwitchInfo, body *ast.BlockStmt) {
+	for _, st := range body.List {
+		cc, ok := st.(*ast.CaseClause)
+		if !ok {
+			continue
+		}
+		si.Clauses = append(si.Clauses, cc)
+		if cc.List == nil {
+			si.HasDefault = true
+			si.Labels = append(si.Labels, nil)
+			continue
+		}
+		var ls []string
+		for _, e := range cc.List {
+			if si.IsType {
+				ls = append(ls, TypeLabel(pk, e))
+			} else {
+				ls = append(ls, ExprLabel(pk, e))
+			}
+		}
+		si.Labels = append(si.Labels, ls)
+	}
+}
+
+// TypeLabel renders a type expression of a type-switch case as [*]Name.
+func TypeLabel(pk *packages.Package, e ast.Expr) string {
+	if tv, ok := pk.TypesInfo.Types[e]; ok && tv.Type != nil {
+		t := tv.Type
+		star := ""
+		if p, ok := t.(*types.Pointer); ok {
+			star = "*"
+			t = p.Elem()
+		}
+		if n, ok := t.(*types.Named); ok {
+			return star + n.Obj().Name()
+		}
+		return star + t.String()
+	}
+	return types.ExprString(e)
+}
+
+// AllLabels returns the flattened label set of the switch.
+func (s *SwitchInfo) AllLabels() map[string]bool {
+	out := map[string]bool{}
+	for _, ls := range s.Labels {
+		for _, l := range ls {
+			out[l] = true
+		}
+	}
+	return out
+}
+
+// TagIsFieldOf reports whether the switch tag is a selector x.<field> (by name) — or a call x.Get<Field>().
+func (s *SwitchInfo) TagIsField(field string) bool {
+	switch t := ast.Unparen(s.Tag).(type) {
+	case *ast.SelectorExpr:
+		return t.Sel.Name == field
+	case *ast.CallExpr:
+		if se, ok := t.Fun.(*ast.SelectorExpr); ok {
+			return se.Sel.Name == "Get"+field
+		}
+	case *ast.Ident:
+		return t.Name == field
+	}
+	return false
+}
+
+// TagType returns the type of the switch tag.
+func (s *SwitchInfo) TagType(pk *packages.Package) types.Type {
+	if s.Tag == nil {
+		return nil
+	}
+	if tv, ok := pk.TypesInfo.Types[s.Tag]; ok {
+		return tv.Type
+	}
+	return nil
+}
+
+// ClauseAt returns the index of the clause containing pos, or -1.
+func (s *SwitchInfo) ClauseAt(pos token.Pos) int {
+	for i, c := range s.Clauses {
+		if c.Pos() <= pos && pos <= c.End() {
+			return i
+		}
+	}
+	return -1
+}
